@@ -40,8 +40,9 @@ pub open spec fn cacheable(s: Seq<ResourceRecord>) -> bool { exists|r: Nameserve
 // (assumed of the validator's output, see TRUSTED) answers list the alias chain in order
 pub open spec fn resp_shape(resp: NameserverResponse, q: Question) -> bool {
     match resp {
-        NameserverResponse::Answer { rrs, .. } => q.qtype != QueryType::Wildcard ==> chain_ok(rrs@, q.name),
-        NameserverResponse::CNAME { rrs, cname } => q.qtype != QueryType::Wildcard ==> rrs@.len() > 0 && chain_k(rrs@, q.name, rrs@.len() as int) && ends_at(rrs@, cname),
+        // typed_ok: proved in upstream_filter (response_ok: every record is of the asked type at the final name or an on-path CNAME)
+        NameserverResponse::Answer { rrs, .. } => typed_ok(rrs@, q.qtype) && (q.qtype != QueryType::Wildcard ==> chain_ok(rrs@, q.name)),
+        NameserverResponse::CNAME { rrs, cname } => typed_ok(rrs@, q.qtype) && (q.qtype != QueryType::Wildcard ==> rrs@.len() > 0 && chain_k(rrs@, q.name, rrs@.len() as int) && ends_at(rrs@, cname)),
         NameserverResponse::Delegation { rrs, delegation } => is_suffix(delegation.name.labels@, q.name.labels@),
     }
 }
@@ -70,7 +71,7 @@ fn resolve_hostname_to_ip<'a>(context: &mut RecursiveContext<'a>, resolve_locall
 { unimplemented!() }
 #[verifier::external_body]
 fn get_record<'a>(rrs: &'a [ResourceRecord], target: &DomainName, rtype: RecordType) -> (r: Option<&'a ResourceRecord>)
-    ensures r is Some ==> r->Some_0.name == *target, // family: get_record (assumed there too)
+    ensures r is Some ==> r->Some_0.name == *target && spec_rtype_of(r->Some_0.rtype_with_data) == rtype, // family: get_record (assumed there too)
 { unimplemented!() }
 // R40: `slice.into()` (From<&[T]> for Vec<T>: clones the elements)
 #[verifier::external_body]
@@ -106,8 +107,9 @@ SPECS = {
         question.qtype != QueryType::Wildcard && r is Ok ==>
             (rrs@.len() == 0 ==> chain_ok(resolved_rrs(r->Ok_0), question.name))
             && (forall|q0: DomainName| rrs@.len() > 0 && #[trigger] chain_k(rrs@, q0, rrs@.len() as int) && ends_at(rrs@, question.name) ==> chain_ok(resolved_rrs(r->Ok_0), q0)), // [C10:aliases_first_then_the_resolution_of_their_target]
+        r is Ok && typed_ok(rrs@, question.qtype) ==> typed_ok(resolved_rrs(r->Ok_0), question.qtype), // [C10:only_aliases_and_records_of_the_asked_type]
     decreases ctx_limit(old(context)) - old(context).question_stack@.len(), 1int,""",
-        "entry": L.BU + " broadcast use group_chain, lemma_chain_concat_b, lemma_merged_nil_b, lemma_nil_concat_b, axiom_rr_vec_len;"},
+        "entry": L.BU + " broadcast use group_chain, lemma_chain_concat_b, lemma_merged_nil_b, lemma_nil_concat_b, axiom_rr_vec_len, group_typed;"},
     "resolve_with_nameserver_response": {
         "props": ["C06", "C10"],
         "header_rewrites": [("R32", r"\basync fn\b", "fn")],
@@ -117,8 +119,9 @@ SPECS = {
 """ + COMMON_FRAME + """
         r is Err ==> nameserver_response is Delegation && r->Err_0 == nameserver_response->delegation, // [C06:only_a_validated_referral_replaces_the_candidates]
         question.qtype != QueryType::Wildcard && combined_rrs@.len() == 0 && r is Ok && r->Ok_0 is Ok ==> chain_ok(resolved_rrs(r->Ok_0->Ok_0), question.name), // [C10:upstream_answer_in_chain_order_from_the_question_name]
+        typed_ok(combined_rrs@, question.qtype) && r is Ok && r->Ok_0 is Ok ==> typed_ok(resolved_rrs(r->Ok_0->Ok_0), question.qtype), // [C10:only_aliases_and_records_of_the_asked_type]
     decreases ctx_limit(old(context)) - old(context).question_stack@.len(), 2int,""",
-        "entry": L.BU + " broadcast use group_chain, lemma_chain_concat_b, lemma_merged_nil_b, lemma_nil_concat_b, axiom_rr_vec_len; assert(cacheable(response_rrs(nameserver_response)));"},
+        "entry": L.BU + " broadcast use group_chain, lemma_chain_concat_b, lemma_merged_nil_b, lemma_nil_concat_b, axiom_rr_vec_len, group_typed; assert(cacheable(response_rrs(nameserver_response)));"},
 }
 
 CANDIDATES = {
@@ -163,6 +166,7 @@ RRN = {
             && question.qtype != QueryType::Wildcard && zr(old(context), *question)->Some_0.1->rrs@.len() > 0 ==>
             r == Ok::<ResolvedRecord, ResolutionError>(ResolvedRecord::NonAuthoritative { rrs: zr(old(context), *question)->Some_0.1->rrs, soa_rr: None }), // [C01:recursive_local_records_returned_exactly]
         question.qtype != QueryType::Wildcard && r is Ok ==> chain_ok(resolved_rrs(r->Ok_0), question.name), // [C10:recursive_chain_in_order_from_the_question_name]
+        r is Ok ==> typed_ok(resolved_rrs(r->Ok_0), question.qtype), // [C10:recursive_answer_holds_only_aliases_and_records_of_the_asked_type]
     decreases ctx_limit(old(context)) - old(context).question_stack@.len(), 0int,""",
     "entry": L.BU + " broadcast use group_chain, lemma_chain_concat_b, lemma_merged_nil_b, lemma_nil_concat_b, axiom_rr_vec_len, axiom_dn_vec_len, axiom_names_wf, group_local_first, lemma_alias_concat_b;",
     "loops": {"0": {"kw": "while", "spec": """        invariant
@@ -175,6 +179,7 @@ RRN = {
             !(zr(old(context), *question) is Some && zr(old(context), *question)->Some_0.1 is Answer && zone_soa_rr(zr(old(context), *question)->Some_0.0) is None
                 && question.qtype != QueryType::Wildcard && zr(old(context), *question)->Some_0.1->rrs@.len() > 0),
             question.qtype != QueryType::Wildcard ==> combined_rrs@.len() == 0,
+            typed_ok(combined_rrs@, question.qtype),
             match_count <= question.name.labels@.len(), // [C06:referral_depth_never_exceeds_the_question_name]
         decreases question.name.labels@.len() - match_count, phase(resolve_candidates_locally), candidate_hostnames@.len(),
 """, "entry": L.BU + " broadcast use group_chain, lemma_chain_concat_b, lemma_merged_nil_b, lemma_nil_concat_b, axiom_rr_vec_len, axiom_dn_vec_len;"}},
@@ -224,6 +229,8 @@ pub struct ExSocketAddr(std::net::SocketAddr);""")
     G.item(Lc, "const", "CNAME_QTYPE")
     G.raw(ALL_NAMED_RS, ("spec", "all_named"))
     G.raw(OWNERS_OK_RS, ("spec", "owners_ok"))
+    G.raw(QMATCH_RS, ("spec", "qmatch"))
+    G.raw(ANSWER_TYPED_RS, ("spec", "answer_typed"))
     G.raw(L.SPEC_RS, ("spec", "local spec"))
     G.raw(L.SPEC2, ("spec", "local spec2"))
     specs = {k: assumed(dict(v, depub=True)) for k, v in L.SPECS.items()}
